@@ -54,7 +54,7 @@ Spec == Init /\ [][Tick]_vars
 Zeros(n) == [j \in 1..n |-> 0]
 Starts(per) == [j \in 1..Len(per) |-> per[j].start]
 \* C06.tile and coverage of [window start, now]
-InvTile  == TileOK(Starts(PerTL), Zeros(Len(PerTL)), pd)
+InvTile  == TileOK(Starts(PerTL), Zeros(Len(PerTL)), pd, 0) /\ CoverOK(now - BT)
 InvCover == K0 * PT <= (IF Lo > 0 THEN Lo ELSE 0) /\ now < (K1 + 1) * PT
 \* C06.partition holds for the sliced timeline at every instant, whatever the alignment of loop and period grid
 InvPartitionTL == PartitionBad(B, sc.TS, pd, Rel(Single), PerTL) = {}
